@@ -4,6 +4,7 @@ import (
 	"context"
 	"errors"
 	"io"
+	"time"
 
 	"github.com/ipfs/ipfs-cluster/api"
 	"github.com/ipfs/ipfs-cluster/state"
@@ -109,6 +110,14 @@ func vrfSymbolicPin(i int, tag string) *api.Pin {
 	p.Name = vrf_nondet_string(tag + "_name")
 	p.ReplicationFactorMin = vrf_nondet_int(tag + "_rmin")
 	p.ReplicationFactorMax = vrf_nondet_int(tag + "_rmax")
+	// an expiry date, before or after the instant the entry is applied: applying a
+	// committed entry must not depend on the clock of the replica that applies it
+	if vrf_choice(tag+"_has_expiry", 2) == 1 {
+		delta := vrf_nondet_int64(tag + "_expire_minus_now")
+		vrf_assume(vrf_or(delta <= -1000000000, delta >= 1000000000))
+		vrf_assume(vrf_and(delta > -1000000000*1000000, delta < 1000000000*1000000))
+		p.ExpireAt = time.Unix(0, vrf_now()+delta)
+	}
 	if tag == "new" || vrf_param("old_allocs") == 1 {
 		for j := range vrfPeers {
 			if vrf_choice(tag+"_alloc", 2) == 1 {
@@ -132,6 +141,9 @@ func vrfSamePin(a, b *api.Pin) bool {
 		if a.Allocations[i] != b.Allocations[i] {
 			return false
 		}
+	}
+	if !a.ExpireAt.Equal(b.ExpireAt) {
+		return false
 	}
 	return vrf_and(vrf_and(a.Cid.Equals(b.Cid), a.Type == b.Type),
 		vrf_and(vrf_and(a.MaxDepth == b.MaxDepth, a.Mode == b.Mode),
